@@ -485,6 +485,25 @@ class Gen:
         d.initials[prop] = style_value(rng, prop)
         if prop == "Display":
           self.classes.add("display-initial")
+    if d.regions and rng.random() < 0.08:
+      # showBackground of an unreferenced region decided by what is NOT written on the region: the document's initial value
+      # (whenActive: dropped; always: kept although the region specifies nothing) or an animation step on the region
+      r = d.regions[-1]
+      for k in ("Display", "Opacity", "Visibility", "ShowBackground"):
+        r.styles.pop(k, None)
+      r.anims = [x for x in r.anims if x[0] not in ("Display", "Opacity", "Visibility", "ShowBackground", "BackgroundColor")]
+      r.begin = r.end = None
+      r.styles["BackgroundColor"] = ("C", (0, 0, 255, 255))
+      v = rng.choice(["initial-whenActive", "initial-always", "animated-always", "animated-whenActive"])
+      d.initials.pop("ShowBackground", None)
+      if v.startswith("initial"):
+        d.initials["ShowBackground"] = E("ShowBackgroundType", v.split("-")[1])
+      else:
+        other = "whenActive" if v == "animated-always" else "always"
+        r.styles["ShowBackground"] = E("ShowBackgroundType", other)
+        b0 = rng.choice([Fr(1), Fr(2), Fr(4)])
+        r.anims.append(("ShowBackground", b0, b0 + rng.choice([Fr(1), Fr(3)]), E("ShowBackgroundType", v.split("-")[1])))
+      self.classes.add("show-background-unspecified-or-animated")
     initial_none = rng.random() < 0.05
     if initial_none:
       # <initial tts:display="none"/>: only elements that specify or animate display are presented
